@@ -126,6 +126,8 @@ def run_config(rep, binary, name, params, mode, max_states=None, rnd=None, conc_
             if per_sig[psig] == 3:
                 log("  (further occurrences of '%s' are counted, not re-run)" % psig)
             continue
+        if SUBRUN:
+            continue
         # confirm by re-running the job alone in a fresh process
         r2 = run_jobs(binary, [j], batch=1)
         d2 = [x for x in r2[0][1] if x[0] == 2]
